@@ -177,6 +177,7 @@ type listenRec struct {
 	flip     bool // this listener asked for the opposite options
 	lc, lr   int64
 	ok       bool
+	period   int // which open period of the port the listener belongs to
 	stopCall int64
 	stopRet  int64
 }
@@ -186,6 +187,7 @@ func (s *CatSc) checkIn(ro runOut, st *core.Stats, add func(clause, key, format 
 		return
 	}
 	// model of the in thread
+	period := 0
 	open := false
 	startAttempt := 0
 	listeners := map[int64]*listenRec{}
@@ -231,6 +233,7 @@ func (s *CatSc) checkIn(ro runOut, st *core.Stats, add func(clause, key, format 
 					return
 				}
 				open = true
+				period++
 			}
 		case "listen":
 			l := &listenRec{lc: c.start, lr: c.end, stopCall: inf, stopRet: inf}
@@ -257,6 +260,7 @@ func (s *CatSc) checkIn(ro runOut, st *core.Stats, add func(clause, key, format 
 				}
 				expectStarts++
 				open = true
+				period++
 			}
 			if !open {
 				st.Probe("in:listen-on-closed-port")
@@ -294,6 +298,7 @@ func (s *CatSc) checkIn(ro runOut, st *core.Stats, add func(clause, key, format 
 				st.Probe("in:re-listen")
 			}
 			l.ok = true
+			l.period = period
 			active = c.info
 		case "stop":
 			if l := listeners[c.info]; l != nil {
@@ -306,6 +311,9 @@ func (s *CatSc) checkIn(ro runOut, st *core.Stats, add func(clause, key, format 
 					active = 0
 				} else if active != 0 {
 					st.Probe("in:stale-stop-with-active-listener")
+					if l.period != period {
+						st.Probe("in:stop-function-of-an-earlier-open-period-called-while-a-listener-is-active")
+					}
 				}
 			}
 		case "close", "driverclose":
@@ -568,12 +576,19 @@ func (s *CatSc) checkOut(ro runOut, st *core.Stats, add func(clause, key, format
 	}
 	// lines the helper saw
 	linePos := map[int64]int{}
+	inDead := map[int64]bool{} // lines a process had read before it ended, without acting on them
 	n := 0
 	for _, e := range ro.events {
 		switch e.kind {
 		case "helper-partial":
 			add("out-lines", "fragment", "the helper received the incomplete line %q", e.s)
 			return
+		case "helper-line-lost-in-dead-process":
+			if msg, ok := parseOutLine(e.s); ok {
+				if k, ok := keyOfRec(msg); ok {
+					inDead[k] = true
+				}
+			}
 		case "helper-line":
 			msg, ok := parseOutLine(e.s)
 			var k int64
@@ -614,7 +629,7 @@ func (s *CatSc) checkOut(ro runOut, st *core.Stats, add func(clause, key, format
 					intoTheVoid = true
 				}
 			}
-			if intoTheVoid && !arrived {
+			if (intoTheVoid || inDead[sd.k]) && !arrived {
 				st.Probe("out:send-accepted-by-a-helper-that-had-just-ended")
 				continue
 			}
